@@ -478,6 +478,9 @@ func gen1(t *rapid.T) Case {
 		}
 	}
 	c.Handlers = rapid.SampledFrom([]int{1, 2, 4, 8}).Draw(t, "handlers")
+	if stats.FirstUse() {
+		c.Handlers = 8 // first-use leg: the first case of the process starts with eight handlers at once
+	}
 	c.Debug = rapid.Bool().Draw(t, "debug")
 	c.CfgDisplay = rapid.Bool().Draw(t, "cfgDisplay")
 	c.CfgRecord = rapid.Bool().Draw(t, "cfgRecord")
